@@ -187,6 +187,8 @@ def main():
         S.cleanup(items)
         return rep.finish()
     S.model_check(rep, MODELS[a.tier])
+    # the property is not vacuous: a faulty variant of the model is refuted
+    S.model_refutes(rep, 'HierBad', 'MC_HierBad_nocheck.cfg', ['OutfileAccepted'])
     r = random.Random(common.seed() + 1)
     cfgs = make_configs(r, NRUNS[a.tier])
     items = S.validate(rep, S.execute(cfgs, label='c01'))
